@@ -143,4 +143,50 @@ def catalogue():
                                 call("E1", "E", binds={"n": ref("G", "w")})],
                                {"k": ref("U", "k"), "m": ref("E1", "m"), "bs": ref("G", "ws", "b")})],
                      "TOP", {}))
+    # 13. splitting stage without declared chunk outputs: the chunks report through
+    #     the stage-level output fields and the join reads them from chunk_outs
+    P.append(program("split_nocouts", [],
+                     [stage("S", "int[] xs", "int[] ys, int v", {"ys": collect("v"), "v": const(0)},
+                            split=True, chunks={"k": "len", "src": "xs"}, couts="", crules={},
+                            ),
+                      stage("R", "int[] xs", "int n", {"n": length("xs")})],
+                     [pipeline("TOP", "int[] xs", "int[] o, int n",
+                               [call("S", binds={"xs": self_("xs")}),
+                                call("R", binds={"xs": ref("S", "ys")})],
+                               {"o": ref("S", "ys"), "n": ref("R", "n")})], "TOP", {"xs": [7, 8, 9]}))
+
+    # 14. two mapped levels: the inner map call splits the output of a stage that is
+    #     itself forked by the outer map call
+    P.append(program("map_nested", [],
+                     [stage("MK", "int n", "int[] arr", {"arr": const([3, 4])}), S_echo("X"),
+                      stage("MK2", "int n", "int[] arr", {"arr": INST_ARR()})],
+                     [pipeline("SUB", "int n", "int[] ys",
+                               [call("MK2", binds={"n": self_("n")}),
+                                call("X", binds={"x": split(ref("MK2", "arr"))}, mode="array")],
+                               {"ys": ref("X", "y")}),
+                      pipeline("TOP", "int[] ns", "int[][] o",
+                               [call("SUB", binds={"n": split(self_("ns"))}, mode="array")],
+                               {"o": ref("SUB", "ys")})], "TOP", {"ns": [1, 2]}))
+
+    # 15. typed maps with keys that stress fork naming and journal routing
+    for nm, keys in (("keys_suffix", ["a_b", "b"]), ("keys_encoded", ["a b", "a%20b"]),
+                     ("keys_dots", ["k.1", "k/1", "%2E"]), ("keys_fork", ["fork1", "chnk0", "u0123456789"])):
+        P.append(program(nm, [], [S_const("G", "map<int> m", {"m": {k: i + 1 for i, k in enumerate(keys)}}), S_echo("A")],
+                         [pipeline("TOP", "", "map<int> o",
+                                   [call("G"),
+                                    call("A", binds={"x": split(ref("G", "m"))}, mode="map")],
+                                   {"o": ref("A", "y")})], "TOP", {}))
+
+    # 16. projection of a struct field through a two-dimensional array of structs
+    P.append(program("proj2d", [struct("PT", "int x, int y")],
+                     [S_const("G", "PT[][] grid", {"grid": [[{"x": 1, "y": 2}, {"x": 3, "y": 4}], [{"x": 5, "y": 6}]]}),
+                      S_echo("E", "int[][]", "xs", "ys")],
+                     [pipeline("TOP", "", "int[][] o",
+                               [call("G"), call("E", binds={"xs": ref("G", "grid", "x")})],
+                               {"o": ref("E", "ys")})], "TOP", {}))
     return P
+
+
+def INST_ARR():
+    """array output whose two elements depend on the stage's input n: [n*10, n*10+1]"""
+    return {"k": "arr2", "src": "n"}
